@@ -145,7 +145,7 @@ func h64(parts ...string) uint64 {
 // obs is what one decode of one block by the real decoder shows.
 type obs struct {
 	ok     bool   // every Write and Close returned nil
-	err    string // class of the first error
+	errv   error  // the first error
 	at     string // "write" or "close"
 	panic  string
 	fields []F
@@ -157,68 +157,119 @@ type obs struct {
 	allowed uint32
 	// "never lets the dynamic table grow beyond the size permitted at that moment":
 	// checked at every emit callback and at the end
-	overMax string
+	overMax   string // human text, "" = never
+	overClass string // "size>maxSize@emit" | "size>maxSize@end" | "size-accounting"
+	dec       *hpack.Decoder // the decoder after the block
 }
 
 func tableHashDec(d *hpack.Decoder) (uint64, int, uint32, uint32, uint32) {
 	n, size, max, allowed := hpack.VerifC18DecoderQuick(d)
-	h := fnv.New64a()
-	var b [12]byte
-	put := func(o int, v uint32) { b[o], b[o+1], b[o+2], b[o+3] = byte(v), byte(v>>8), byte(v>>16), byte(v>>24) }
-	put(0, size)
-	put(4, max)
-	put(8, allowed)
-	h.Write(b[:])
-	for _, e := range hpack.VerifC18DecoderEnts(d) {
-		h.Write([]byte(e.Name))
-		h.Write([]byte{0})
-		h.Write([]byte(e.Value))
-		h.Write([]byte{1})
+	const prime = 1099511628211
+	h := uint64(14695981039346656037)
+	mix := func(b byte) { h = (h ^ uint64(b)) * prime }
+	for _, v := range [3]uint32{size, max, allowed} {
+		mix(byte(v))
+		mix(byte(v >> 8))
+		mix(byte(v >> 16))
+		mix(byte(v >> 24))
 	}
-	return h.Sum64(), n, size, max, allowed
+	for _, e := range hpack.VerifC18DecoderEnts(d) {
+		for i := 0; i < len(e.Name); i++ {
+			mix(e.Name[i])
+		}
+		mix(0)
+		h *= prime
+		for i := 0; i < len(e.Value); i++ {
+			mix(e.Value[i])
+		}
+		mix(1)
+		h *= prime
+	}
+	return h, n, size, max, allowed
 }
 
-// runDecoder feeds block to a clone of pre, cut at the positions in cuts
-// (bit i of cuts set = cut after octet i), then Close.
-func runDecoder(pre *hpack.Decoder, block []byte, cuts uint32, keepFields bool) (o obs) {
-	var d *hpack.Decoder
-	var fh uint64 = 14695981039346656037
+// runner owns a scratch decoder that is reset to the wanted start state before
+// every run (cloning the index maps for every one of ~10^9 decodes is the
+// dominant cost otherwise).
+type runner struct {
+	d   *hpack.Decoder
+	cur *obs
+	buf []F
+}
+
+func newRunner() *runner {
+	r := &runner{}
+	r.reset()
+	return r
+}
+
+func (r *runner) reset() {
+	r.d = hpack.NewDecoder(4096, nil)
+	r.d.SetEmitFunc(r.emit)
+}
+
+func (r *runner) emit(f hpack.HeaderField) {
+	o := r.cur
+	r.buf = append(r.buf, F{Name: f.Name, Value: f.Value, Sensitive: f.Sensitive})
+	o.fields = r.buf
+	if _, size, max, _ := hpack.VerifC18DecoderQuick(r.d); size > max && o.overMax == "" {
+		o.overMax = fmt.Sprintf("at emit of field %d: size %d > maxSize %d", len(o.fields), size, max)
+		o.overClass = "size>maxSize@emit"
+	}
+}
+
+// run feeds block to the scratch decoder reset to pre's state, cut at the
+// positions in cuts (bit i set = cut after octet i), then Close. The returned
+// obs (fields, dec) is valid until the next run of the same runner.
+func (r *runner) run(pre *hpack.Decoder, block []byte, cuts uint32) (o obs) {
+	d := r.d
+	r.cur = &o
+	r.buf = r.buf[:0]
 	defer func() {
-		if r := recover(); r != nil {
+		if p := recover(); p != nil {
 			o.ok = false
-			o.panic = errClass(r)
+			o.panic = errClass(p)
+			// the scratch decoder may be half-way through something: replace it
+			r.reset()
 		}
-		if !keepFields {
-			// fold the emitted fields into tabHash's companion: stored in size-independent field
-			o.fields = nil
-		}
-		_ = fh
+		r.cur = nil
 	}()
-	d = hpack.VerifC18CloneDecoder(pre, nil)
-	d.SetEmitFunc(func(f hpack.HeaderField) {
-		o.fields = append(o.fields, F{Name: f.Name, Value: f.Value, Sensitive: f.Sensitive})
-		if _, size, max, _ := hpack.VerifC18DecoderQuick(d); size > max && o.overMax == "" {
-			o.overMax = fmt.Sprintf("at emit of field %d: size %d > maxSize %d", len(o.fields), size, max)
-		}
-	})
+	hpack.VerifC18RestoreDecoder(d, pre)
+	o.dec = d
 	o.ok = true
-	start := 0
-	for i := 0; i < len(block) && o.ok; i++ {
-		if i == len(block)-1 || cuts&(1<<uint(i)) != 0 {
-			if _, err := d.Write(block[start : i+1]); err != nil {
-				o.ok, o.err, o.at = false, errClass(err), "write"
+	write := func(p []byte) {
+		if _, err := d.Write(p); err != nil {
+			o.ok, o.errv, o.at = false, err, "write"
+		}
+	}
+	switch {
+	case len(block) == 0:
+	case cuts == 0:
+		write(block)
+	case cuts&singleCut != 0:
+		pos := int(cuts &^ singleCut)
+		write(block[:pos+1])
+		if o.ok && pos+1 < len(block) {
+			write(block[pos+1:])
+		}
+	default:
+		start := 0
+		for i := 0; i < len(block) && o.ok; i++ {
+			if i == len(block)-1 || (i < 31 && cuts&(1<<uint(i)) != 0) {
+				write(block[start : i+1])
+				start = i + 1
 			}
-			start = i + 1
 		}
 	}
 	if o.ok {
 		if err := d.Close(); err != nil {
-			o.ok, o.err, o.at = false, errClass(err), "close"
+			o.ok, o.errv, o.at = false, err, "close"
 		}
 	}
 	o.tabHash, o.n, o.size, o.max, o.allowed = tableHashDec(d)
 	if o.size > o.max && o.overMax == "" {
 		o.overMax = fmt.Sprintf("after the block: size %d > maxSize %d", o.size, o.max)
+		o.overClass = "size>maxSize@end"
 	}
 	var sum uint32
 	for _, e := range hpack.VerifC18DecoderEnts(d) {
@@ -226,9 +277,33 @@ func runDecoder(pre *hpack.Decoder, block []byte, cuts uint32, keepFields bool) 
 	}
 	if sum != o.size && o.overMax == "" {
 		o.overMax = fmt.Sprintf("after the block: recorded size %d but entries add up to %d (maxSize %d)", o.size, sum, o.max)
+		o.overClass = "size-accounting"
 	}
 	return o
 }
+
+var (
+	wholeRunner = newRunner() // unfragmented runs (result kept while the fragment runs go on)
+	fragRunner  = newRunner()
+	auxRunner   = newRunner()
+)
+
+// runDecoder: unfragmented or fragmented run on a scratch decoder; the result's
+// fields/dec stay valid until the next runDecoder call.
+func runDecoder(pre *hpack.Decoder, block []byte, cuts uint32) obs {
+	return auxRunner.run(pre, block, cuts)
+}
+
+// runDecoderKeep runs on a fresh clone; the result (and o.dec) is owned by the caller.
+func runDecoderKeep(pre *hpack.Decoder, block []byte) obs {
+	r := newRunner()
+	o := r.run(pre, block, 0)
+	o.fields = append([]F(nil), o.fields...)
+	return o
+}
+
+// err is the normalised class of the first error.
+func (o *obs) err() string { return errClass(o.errv) }
 
 func sameFields(a, b []F) bool {
 	if len(a) != len(b) {
@@ -269,12 +344,23 @@ func diffClass(d string) string {
 	return d
 }
 
-// cutList renders a cut mask as fragment lengths.
+// singleCut marks a cut description that is not a bit mask but "one cut after
+// octet (cuts &^ singleCut)" — needed for blocks longer than 32 octets.
+const singleCut = 1 << 31
+
+func isCut(cuts uint32, i int) bool {
+	if cuts&singleCut != 0 {
+		return int(cuts&^singleCut) == i
+	}
+	return i < 31 && cuts&(1<<uint(i)) != 0
+}
+
+// cutList renders a cut description as fragment lengths.
 func cutList(n int, cuts uint32) []int {
 	var out []int
 	start := 0
 	for i := 0; i < n; i++ {
-		if i == n-1 || cuts&(1<<uint(i)) != 0 {
+		if i == n-1 || isCut(cuts, i) {
 			out = append(out, i+1-start)
 			start = i + 1
 		}
@@ -291,13 +377,13 @@ func fragmentClosure(pre *hpack.Decoder, block []byte, whole obs, full bool) (n 
 		return 0, 0, "", true
 	}
 	check := func(m uint32) (string, bool) {
-		o := runDecoder(pre, block, m, true)
+		o := fragRunner.run(pre, block, m)
 		n++
 		switch {
 		case o.panic != "":
 			return "panic: " + o.panic, false
 		case o.ok != whole.ok:
-			return fmt.Sprintf("verdict: accepted=%v (err %q) vs unfragmented accepted=%v (err %q)", o.ok, o.err, whole.ok, whole.err), false
+			return fmt.Sprintf("verdict: accepted=%v (err %q) vs unfragmented accepted=%v (err %q)", o.ok, o.err(), whole.ok, whole.err()), false
 		case !sameFields(o.fields, whole.fields):
 			return fmt.Sprintf("fields: %s vs unfragmented %s", fieldsString(o.fields), fieldsString(whole.fields)), false
 		case o.tabHash != whole.tabHash:
@@ -315,10 +401,14 @@ func fragmentClosure(pre *hpack.Decoder, block []byte, whole obs, full bool) (n 
 		}
 		return n, 0, "", true
 	}
-	// light mode: every single cut, every octet on its own
+	// light mode: every single cut (blocks longer than 96 octets: the cuts within the first and the
+	// last 12 octets and at every 1024th octet), every octet on its own (blocks up to 32 octets)
 	for i := 0; i < L-1; i++ {
-		if w, ok := check(1 << uint(i)); !ok {
-			return n, 1 << uint(i), w, false
+		if L > 96 && i >= 12 && i < L-13 && i%1024 != 0 {
+			continue
+		}
+		if w, ok := check(uint32(i) | singleCut); !ok {
+			return n, uint32(i) | singleCut, w, false
 		}
 	}
 	if L > 2 && L <= 32 {
@@ -361,14 +451,17 @@ func TestCheck(t *testing.T) {
 		}
 	}()
 	only := os.Getenv("C18_ONLY")
-	if only == "" || strings.Contains(only, "4") {
-		partHuffman(h)
+	timed := func(name, tag string, f func()) {
+		if only != "" && !strings.Contains(only, tag) {
+			return
+		}
+		t0 := time.Now()
+		f()
+		rep.SetMax("max_shard_ms_"+name, time.Since(t0).Milliseconds())
 	}
-	if only == "" || strings.Contains(only, "2") {
-		partDecoder(h)
-	}
-	if only == "" || strings.Contains(only, "1") {
-		partRoundTrip(h)
-	}
+	timed("P4_huffman", "4", func() { partHuffman(h) })
+	timed("P2_P5_decoder_small_spaces", "2", func() { partDecoder(h, "early") })
+	timed("P1_roundtrip_bfs", "1", func() { partRoundTrip(h) })
+	timed("P2b_decoder_alpha16", "2", func() { partDecoder(h, "late") })
 	rep.Add("wall_ms_shard", time.Since(h.start).Milliseconds())
 }
